@@ -289,6 +289,10 @@ def rule_buffers(run):
     pv = loop[0].target.id if isinstance(loop[0].target, ast.Name) else "port"
     for detail, needle in (("buffer-drives-port", f"vhdl.SignalAssignment(vhdl.Target({pv}), vhdl.Value(buffer))"), ("alias", f"{alias_name}.set_alias({pv}, buffer)"), ("declared", f"{arch_name}.declare(buffer)")):
         run.ob(needle in lt, "VhdlAssembler.apply[EntityTemplate]", file=a.rel, line=loop[0].lineno, detail=detail, expected=needle, found="ok" if needle in lt else "missing")
+    # user supplied reserved names protect the names allocated for the BODY (architecture scope)
+    rn = [c for c in ast.walk(br) if isinstance(c, ast.Call) and isinstance(c.func, ast.Attribute) and c.func.attr == "reserve_name"]
+    ok = len(rn) == 1 and dotted(rn[0].func.value) == arch_name
+    run.ob(ok, "VhdlAssembler.apply[EntityTemplate]", file=a.rel, line=(rn[0].lineno if rn else br.lineno), detail="reserved-names-scope", expected=f"{arch_name}.reserve_name(name) for every entry of the reserved_names attribute", found=src(rn[0])[:60] if rn else "missing")
     subs = [c for c in ast.walk(br) if isinstance(c, ast.Call) and dotted(c.func) == "self.apply" and any(k.arg is None for k in c.keywords)]
     n_alias = sum(1 for c in subs if f"'parent_scope': {alias_name}" in src(c))
     run.ob(len(subs) >= 2 and n_alias == len(subs), "VhdlAssembler.apply[EntityTemplate]", file=a.rel, line=br.lineno, detail="assembled-under-alias-scope",
@@ -333,7 +337,35 @@ def rule_shadow(run):
     shadow.run_rule(run, "F-SHADOW")
 
 
-RULES = [rule_reserved, rule_vocabulary, rule_names, rule_templates, rule_choices, rule_sensitivity, rule_buffers, rule_castmatrix, rule_concat_cast, rule_visit_unconditional, rule_shadow]
+def rule_hint_position(run):
+    run.begin(
+        "C06.i",
+        "format_cast(target, value, text): wherever a writer receives a target hint, the hint is the FIRST argument of "
+        "format_cast and the written object the second; case/select choices are written as vhdl.Constant of the choice",
+        floor=3,
+    )
+    vh = run.idx.mod(VH)
+    n = 0
+    for q, f in vh.functions.items():
+        params = [a.arg for a in f.node.args.args]
+        hints = {p for p in params if "hint" in p}
+        if not hints:
+            continue
+        for c in calls_in(f.node):
+            if isinstance(c.func, ast.Attribute) and c.func.attr == "format_cast" and len(c.args) == 3:
+                pos = [i for i, a in enumerate(c.args) if any(isinstance(x, ast.Name) and (x.id in hints or "hint" in x.id) for x in ast.walk(a))]
+                n += 1
+                run.ob(pos in ([0], []), q, file=vh.rel, line=c.lineno, detail="hint-first", expected="format_cast(<hint>, <object>, <text>)", found=src(c)[:80])
+    if n < 3:
+        raise AnalysisError(f"format_cast call sites with a target hint not recognised ({n})")
+    asm = run.idx.mod(ASM)
+    ap = asm.func("_StmtAssembler.apply")
+    lit = [c for c in ast.walk(ap.node) if isinstance(c, ast.Call) and dotted(c.func) == "vhdl.Literal"]
+    run.ob(not lit, "_StmtAssembler.apply", file=asm.rel, line=(lit[0].lineno if lit else ap.node.lineno), detail="choices-are-constants", expected="choices / constant operands are wrapped in vhdl.Constant", found="ok" if not lit else f"{len(lit)} vhdl.Literal wrapper(s)")
+    run.end()
+
+
+RULES = [rule_reserved, rule_vocabulary, rule_names, rule_templates, rule_choices, rule_sensitivity, rule_buffers, rule_castmatrix, rule_concat_cast, rule_visit_unconditional, rule_shadow, rule_hint_position]
 LEVEL = "other"
 EXPLANATION = (
     "Legality clauses that are properties of the back end's own tables and templates, decided for all designs: the "
